@@ -60,15 +60,18 @@ FLOORS = {
     'step:lxml': (0.20, 'step'),
     'step:token-mode': (0.20, 'step'),
     'hist:selector-with-2-variable-shapes': (0.50, 'hist'),
-    'step:poly-variable': (0.05, 'step'),
-    'step:indirect-date-time-operand': (0.04, 'step'),
+    'step:poly-variable': (0.04, 'step'),
+    'step:indirect-date-time-operand': (0.03, 'step'),
     'step:indirect-date-time-operand-with-tz': (0.45, 'step:indirect-date-time-operand'),
     'step:context-function-reference': (0.03, 'step'),
-    'step:literal-constructor-consumed': (0.06, 'step'),
+    'step:literal-constructor-consumed': (0.04, 'step'),
+    'step:regex-collation-picture-from-variables': (0.05, 'step'),
+    'step:caller-map-array-multi-item': (0.05, 'step'),
+    'hist:regex-same-pattern-other-flags': (0.15, 'hist'),
     'step:entry-points-compared': (0.20, 'step'),
     'step:entry-points-compared-with-tz': (0.40, 'step:entry-points-compared'),
-    'step:function-item': (0.06, 'step'),
-    'step:serialize': (0.10, 'step'),
+    'step:function-item': (0.03, 'step'),
+    'step:serialize': (0.04, 'step'),
     'step:serialize-doc-with-tails': (0.40, 'step:serialize'),
     'step:rebind': (0.015, 'step'),
     'scope:multi-clause-rebind': (0.10, 'scope'),
@@ -205,6 +208,51 @@ TEMPLATES = [
     ('ctx-generate-id', 3, 'let $f := path#0, $g := has-children#0 return ($f(), $g())'),
     ('ctx-apply', 31, 'apply(name#0, [])'),
     ('ctx-function-lookup', 3, "function-lookup(xs:QName('fn:name'), 0)()"),
+    # regex / collation / picture arguments that come from $variables and change between evaluations of one token
+    ('rx-matches-pred', 2, '$words[matches(., $p, $fl)]'),
+    ('rx-matches', 2, 'matches($txt, $p, $fl)'),
+    ('rx-matches-doc', 2, '//*[matches(string(.), $p, $fl)]'),
+    ('rx-matches-flag-seq', 2, 'for $f in $flags return matches($txt, $p, $f)'),
+    ('rx-matches-flag-seq-literal', 2, "for $f in $flags return matches($txt, '^hello', $f)"),
+    ('rx-matches-item-flags', 2, "for $w in $words return matches($w, '^h', if (string-length($w) > 4) then $fl else '')"),
+    ('rx-matches-2args', 2, 'matches($txt, $p)'),
+    ('rx-replace', 2, 'replace($txt, $p, $rp, $fl)'),
+    ('rx-replace-3args', 2, 'replace($txt, $p, $rp)'),
+    ('rx-replace-flag-seq', 2, "for $f in $flags return replace($txt, 'L+', '-', $f)"),
+    ('rx-tokenize', 2, 'tokenize($txt, $p, $fl)'),
+    ('rx-tokenize-flag-seq', 2, "for $f in $flags return count(tokenize($txt, 'h', $f))"),
+    ('rx-analyze-string', 3, 'analyze-string($txt, $p, $fl)//*/string()'),
+    ('rx-analyze-string-flag-seq', 3, "for $f in $flags return count(analyze-string($txt, '^h', $f)/*)"),
+    ('rx-contains-collation', 2, "(contains($txt, 'HELLO', $coll), starts-with($txt, 'hELLO', $coll), ends-with($txt, 'TALL', $coll))"),
+    ('rx-compare-collation', 2, "(compare('a', 'A', $coll), index-of(('a', 'A'), 'a', $coll), distinct-values(('a', 'A', 'b'), $coll))"),
+    ('rx-deep-equal-collation', 2, "(deep-equal(('a', 'B'), ('A', 'b'), $coll), substring-after($txt, 'HELLO', $coll))"),
+    ('rx-format-number', 3, 'format-number(1234.5, $pic)'),
+    ('rx-format-integer', 3, 'for $q in $ipics return format-integer(12, $q)'),
+    # caller-owned maps / arrays with multi-item members consumed by the map:* / array:* functions
+    ('mv-merge-combine', 31, "map:merge(($fm, map{'b': 9, 'a': (7, 8)}), map{'duplicates': 'combine'})?*"),
+    ('mv-merge-combine-self', 31, "map:merge(($fm, $fm, $fm), map{'duplicates': 'combine'})?b"),
+    ('mv-merge-combine-let', 31, "let $a := map{'k': (3, 2), 'j': $seq} return (map:merge(($a, map{'k': 1, 'j': $n}), map{'duplicates': 'combine'})?*, count($a?k), count($a?j))"),
+    ('mv-merge-use-first', 31, "map:merge(($fm, map{'b': 9}), map{'duplicates': 'use-first'})?b"),
+    ('mv-merge-use-last', 31, "map:merge((map{'b': 9}, $fm), map{'duplicates': 'use-last'})?b"),
+    ('mv-merge-use-any', 31, "count(map:merge(($fm, $fm), map{'duplicates': 'use-any'})?b)"),
+    ('mv-merge-reject', 31, "map:merge(($fm, map{'b': 9}), map{'duplicates': 'reject'})"),
+    ('mv-merge-default', 31, "(map:merge(($fm, map{'b': 9, 'c': $seq}))?*, map:size($fm))"),
+    ('mv-merge-dm', 31, "map:merge(($dm, map{'j': $d1}), map{'duplicates': 'combine'})?j"),
+    ('mv-put', 31, "(map:put($fm, 'b', ($fm?b, $n))?b, $fm?b)"),
+    ('mv-remove', 31, "(map:keys(map:remove($fm, 'b')), map:size($fm))"),
+    ('mv-entry-find', 31, "(map:find(($fm, $fa), 'b'), map:entry('k', $fm?b)?k)"),
+    ('mv-for-each', 31, 'map:for-each($fm, function($k, $v){count($v)})'),
+    ('mv-array-append', 31, '(array:append($fa, $fa?2)?*, array:size($fa))'),
+    ('mv-array-insert', 31, '(array:insert-before($fa, 2, ($n, $s))?*, array:size($fa))'),
+    ('mv-array-remove', 31, '(array:remove($fa, 2)?*, $fa?2)'),
+    ('mv-array-join', 31, '(array:join(($fa, $fa, [$seq]))?*, array:size($fa))'),
+    ('mv-array-put', 31, '(array:put($fa, 2, ($fa?2, $n))?2, $fa?2)'),
+    ('mv-array-subarray', 31, '(array:subarray($fa, 2)?*, array:subarray($fa, 1, 2)?*)'),
+    ('mv-array-reverse', 31, '(array:reverse($fa)?*, $fa?1)'),
+    ('mv-array-flatten', 31, 'array:flatten(($fa, [$fa, $fm?b]))'),
+    ('mv-array-sort', 31, "(array:sort($fa, (), function($x){count($x)})?*, $fa?1)"),
+    ('mv-array-tail-head', 31, '(array:tail($fa)?*, array:head($fa), array:filter($fa, function($x){count($x) > 1})?*)'),
+    ('mv-array-fold', 31, 'array:fold-left($fa, (), function($a, $x){($a, $x)})'),
     # literal map / array constructors whose entries depend on $variables or on the document, consumed directly
     # by lookups, map:for-each, map:keys, array:flatten, '!' (the same parsed token is evaluated again and again)
     ('lit-map-star', 31, "map{'n': count(//*), 'v': $n}?*"),
@@ -378,6 +426,11 @@ def build_ser_params(i):
     return root
 
 
+COLLATIONS = ['http://www.w3.org/2005/xpath-functions/collation/codepoint',
+              'http://www.w3.org/2005/xpath-functions/collation/html-ascii-case-insensitive']     # no locale involved
+P_POOL = ['^hello', '^hello', 'l+', 'H', '^t', 'o$']
+FL_POOL = ['', 'i', 'm', 's', 'im', 'i', '']
+FLAGS_POOL = [['i', '', 'm'], ['', 'i'], ['m', '', 'i', 's'], ['i', 'i', '']]
 POLY_SHAPES = [['int', 1], ['ints', [1, 2, 3]], ['str', 'x'], ['int', 2], ['ints', [4, 5]], ['node'], ['nodes'], ['empty'],
                ['strs', ['a', 'b']], ['dt', '2000-01-01T12:00:00'], ['mixed'], ['ints', [9]], ['dec', '1.5'], ['bool', True]]
 
@@ -416,6 +469,11 @@ def build_vars(vs, vdoc: Doc):
         'e': e, 'nodes': [e[0], e[1]],
         'sp': build_ser_params(vs.get('sp', 0)),
     }
+    # regex / collation / picture arguments (vary one argument at a time between the maps of a history)
+    vars_.update(p=vs.get('p', '^hello'), fl=vs.get('fl', ''), rp=vs.get('rp', '-'), txt='Hello\nhello tall',
+                 words=['hello', 'Hello', 'HELLO', 'tall'], flags=list(vs.get('flags', ['i', '', 'm'])),
+                 coll=COLLATIONS[vs.get('coll', 0) % len(COLLATIONS)], pic=vs.get('pic', '0'),
+                 ipics=list(vs.get('ipics', ['1', 'w'])))
     # timezone-less date/time values inside caller-owned lists, maps and arrays
     XPathMap, XPathArray = o['XPathMap'], o['XPathArray']
     p31 = o['parsers'][31]()
@@ -672,6 +730,7 @@ def judge_hist(case, rec: Recorder | None = None):
             toks.append(err)
     used_docs = [set() for _ in sels]
     used_shapes = {}
+    rx_seen = {}
     tz_seen = [False] * len(varmaps)
     hclasses = set()
     for si, step in enumerate(case['steps']):
@@ -733,6 +792,10 @@ def judge_hist(case, rec: Recorder | None = None):
                 rec.cls('step:context-function-reference')
             elif name.startswith('lit-'):
                 rec.cls('step:literal-constructor-consumed')
+            elif name.startswith('rx-'):
+                rec.cls('step:regex-collation-picture-from-variables')
+            elif name.startswith('mv-'):
+                rec.cls('step:caller-map-array-multi-item')
             if doc.backend == 'lxml':
                 rec.cls('step:lxml')
             if mode in ('token', 'tselect'):
@@ -764,6 +827,12 @@ def judge_hist(case, rec: Recorder | None = None):
         used_shapes.setdefault(ei, set()).add(shape)
         if len(used_shapes[ei]) >= 2 and mode in ('select', 'iter', 'both', 'four'):
             hclasses.add('hist:selector-with-2-variable-shapes')
+        if name.startswith('rx-'):
+            seen = rx_seen.setdefault(ei, {})
+            key, val = case['vars'][vi].get('p'), (case['vars'][vi].get('fl'), tuple(case['vars'][vi].get('flags', ())))
+            if key in seen and seen[key] != val:
+                hclasses.add('hist:regex-same-pattern-other-flags')
+            seen.setdefault(key, val)
         used_docs[ei].add(di)
         if len(used_docs[ei]) >= 2:
             hclasses.add('hist:selector-on-2-docs')
@@ -1121,6 +1190,8 @@ _DT_T = [t[0] for t in TEMPLATES if t[0].startswith(('dt-', 'time-', 'date-', 't
 _DTI_T = [t[0] for t in TEMPLATES if t[0].startswith('dti-')]
 _CTX_T = [t[0] for t in TEMPLATES if t[0].startswith('ctx-')]
 _LIT_T = [t[0] for t in TEMPLATES if t[0].startswith('lit-')]
+_RX_T = [t[0] for t in TEMPLATES if t[0].startswith('rx-')]
+_MV_T = [t[0] for t in TEMPLATES if t[0].startswith('mv-')]
 _FN_T = [t[0] for t in TEMPLATES if t[1] >= 3]
 _FNITEM_T = [t[0] for t in TEMPLATES if t[0].startswith('fn-')]
 _SER_T = [t[0] for t in TEMPLATES if t[0].startswith(('ser-', 'parse-', 'json-', 'xml-to-json'))]
@@ -1137,8 +1208,8 @@ def decode_hist(parts):
     nex = 3 + s.n(4)
     exprs = []
     for _ in range(nex):
-        c = s.n(22)
-        name = (s.pick(_LIT_T) if c >= 19 else s.pick(_DTI_T) if c >= 17 else s.pick(_CTX_T) if c >= 15 else s.pick(_DT_T) if c < 3 else s.pick(_FNITEM_T) if c < 5 else s.pick(_SER_T) if c < 8 else
+        c = s.n(29)
+        name = (s.pick(_RX_T) if c >= 25 else s.pick(_MV_T) if c >= 22 else s.pick(_LIT_T) if c >= 19 else s.pick(_DTI_T) if c >= 17 else s.pick(_CTX_T) if c >= 15 else s.pick(_DT_T) if c < 3 else s.pick(_FNITEM_T) if c < 5 else s.pick(_SER_T) if c < 8 else
                 s.pick(_REBIND_T) if c < 9 else s.pick(_FN_T) if c < 10 else s.pick(_POLY_T) if c < 13 else s.pick(_TALL))
         exprs.append([name, s.pick([2, 3, 31, 31])])
     vars_ = []
@@ -1146,9 +1217,18 @@ def decode_hist(parts):
         vars_.append({'n': s.pick([2, 1, 0, 3]), 's': s.pick(['t', '1', 'x y', '']), 'seq': s.many(lambda: s.pick([1, 2, 3, 5]), 0, 4),
                       'd1': s.pick(DT_POOL), 'd2': s.pick(DT_POOL), 't1': s.pick(TIME_POOL), 'dd': s.pick(DATE_POOL),
                       'sp': s.n(len(SER_PARAM_SETS)),
+                      'p': s.pick(P_POOL), 'fl': s.pick(FL_POOL), 'rp': s.pick(['-', '-', '[$0]', '']),
+                      'flags': s.pick(FLAGS_POOL), 'coll': s.n(2), 'pic': s.pick(['0', '#,##0.00', '#.#']),
+                      'ipics': s.pick([['1', 'w'], ['I', '1', 'a'], ['w', 'W']]),
                       # shapes differ per map: $v item / sequence / other type / node; $w, $zz only in some maps
                       'v': s.pick(POLY_SHAPES), 'w': s.pick(POLY_SHAPES) if s.n(2) else None,
                       'zz': s.pick(POLY_SHAPES) if s.n(3) == 0 else None, 'seq1': s.n(5) == 0, 'nodes1': s.n(5) == 0})
+    # vary ONE regex argument at a time: most histories share the pattern between their maps and differ in the flags
+    if s.n(4):
+        base = s.n(len(FL_POOL))
+        for j, vm in enumerate(vars_):
+            vm['p'], vm['rp'] = vars_[0]['p'], vars_[0]['rp']
+            vm['fl'] = ['', 'i', 'm', 's'][(base + j) % 4]
     steps = []
     for i in range(0, len(step_bytes) - 5, 6):
         b = step_bytes[i:i + 6]
@@ -1161,7 +1241,7 @@ def decode_hist(parts):
     return {'docs': docs, 'exprs': exprs, 'vars': vars_, 'steps': steps}
 
 
-hist_case = st.tuples(st.binary(min_size=64, max_size=64),
+hist_case = st.tuples(st.binary(min_size=192, max_size=192),
                       st.lists(GX.tree_specs(max_elems=8, max_depth=3), min_size=2, max_size=4),
                       st.integers(10, 40).flatmap(lambda n: st.binary(min_size=6 * n, max_size=6 * n))).map(decode_hist)
 
